@@ -8,7 +8,7 @@ RULE = ("disp: L1 histories on the real dispensation keeper (sifapp.SetupWithBla
         "create-distribution (1-5 outputs, duplicate recipients, 1-3 denoms, amounts 1..2^70, a fifth of the recipients spelled in UPPER-CASE bech32 (same account; also both spellings in one distribution), blocked recipients = blacklisted address and "
         "two module accounts, invalid coins/addresses/types, poor distributors), run-distribution (aimed at a pending record 90%; other runner/"
         "name/type 25%; counts 1..20 and 0, 21, -1), create-claim (a third in the account's other spelling), blocks with the real BeginBlocker, funding, transfers; a directed "
-        "runner-merge history; a directed same-block history create(runner A)/run/claims re-filed/create(same distributor+type, runner B, overlapping recipients)/runs (full and partial); after every operation the whole module store (iteration order, raw keys) and 33 balances are compared with the "
+        "runner-merge history; a directed big distribution (26-36 recipients) with same-block run messages whose counts sum to exactly 20 / 19 / 21 followed by further small runs; a directed same-block history create(runner A)/run/claims re-filed/create(same distributor+type, runner B, overlapping recipients)/runs (full and partial); after every operation the whole module store (iteration order, raw keys) and 33 balances are compared with the "
         "model and the escrow / ledger / run / claims predicates are judged on the implementation's dump; non-trivial = accepted create/run/claim")
 TRUSTED_BASE = [
     "Lean 4.33.0 kernel; axioms propext, Classical.choice, Quot.sound (audited per theorem on every run)",
